@@ -33,7 +33,7 @@ def build(H, tier, seed):
 
 def standins(tier, seed):
     n = 3 if tier == 'quick' else 15
-    sigs = [(3, 0, 0), (2, 0, 1), (1, 2, 0), (2, 1, 0)] if tier == 'quick' else \
+    sigs = [(3, 0, 0), (2, 0, 1), (1, 2, 0), (2, 1, 0), (4, 0, 0), (1, 3, 0)] if tier == 'quick' else \
         [(p, q, r) for p in range(4) for q in range(3) for r in range(2) if 2 <= p + q + r <= 4] + [(4, 1, 0), (3, 1, 1), (3, 3, 0)]
     cnt = lambda p, q, r: n if p + q + r <= 4 else min(n, 5)
     extra = [dict(signature=[1, 1, 0], random=n), dict(signature=[1, -1, 0, 1], random=min(n, 4)), dict(name='2DPGA', random=n), dict(name='3DPGA', random=min(n, 4))]
